@@ -104,6 +104,9 @@ func main() {
 				fmt.Printf("%-10s %-60s %s\n    %s\n    %s\n", o.Status, o.Key(), o.Pos, o.Detail, strings.Join(o.Path, "\n    "))
 			}
 		}
+		for k, v := range p.Renamed {
+			r.Notes = append(r.Notes, "anchor "+k+" resolved by signature to renamed function "+v)
+		}
 		all = append(all, r.Obls...)
 		m := core.EvidenceMeta{
 			Tier: *tier, Seed: seed,
